@@ -5,7 +5,7 @@
   Only the driver instantiates it (with ChaCha20-Poly1305 / XChaCha20-Poly1305).
 -/
 import RenetVerif.Base.Res
-import RenetVerif.Netcode.ChaCha
+import RenetVerif.Netcode.ChaCha2
 namespace RenetVerif.Netcode
 
 structure AEAD where
@@ -15,10 +15,10 @@ structure AEAD where
   xopen : Bytes → Bytes → Bytes → Bytes → Option Bytes
 
 def AEAD.chacha : AEAD where
-  «seal» := ChaCha.seal
-  «open» := ChaCha.open
-  xseal := ChaCha.xseal
-  xopen := ChaCha.xopen
+  «seal» := ChaCha2.seal
+  «open» := ChaCha2.open
+  xseal := ChaCha2.xseal
+  xopen := ChaCha2.xopen
 
 /-- The functional laws the netcode theorems may assume of the AEAD (no authenticity claim: that is a
     per-run `NoForgery` hypothesis, never a law).  `MAC = 16` bytes. -/
